@@ -124,6 +124,11 @@ def bytes_jobs(tier, seed):
     jobs.append(gen_job('bytes_hist_ms3', 'offsets', 8, simulate=40 if tier == 'quick' else 300, simdepth=3, style=style,
                         reads=['bytes'], env=cfg_env(3), sample_mod=50, **big))
     jobs.append(gen_job('offsets_textsel_ms1', 'offsets', 7, depth=0, style=style, reads=['offsets'], env=cfg_env(1), **big))
+    # "nor any other result": text search / partition and related-text tables under non-default configurations
+    jobs.append(gen_job('textops_a1_ms2', 'textops', 0, depth=1, style=style, reads=['textops'], P1=3, P2=1, env=cfg_env(2)))
+    jobs.append(gen_job('textops_a5_ms0', 'textops', 0, depth=1, style=style, reads=['textops'], P1=3, P2=5, env=cfg_env(0)))
+    jobs.append(gen_job('related_p17_ms1', 'remove', 17, depth=0, style=style, reads=['related', 'segment'], env=cfg_env(1), MaxAnns=12, MaxRes=2))
+    jobs.append(gen_job('queries_p5_ms3', 'remove', 5, depth=0, style=0, reads=['queries', 'textqueries', 'finddata'], env=cfg_env(3), MaxAnns=10, MaxRes=3, MaxData=8, MaxSets=2, MaxKeys=4))
     if tier != 'quick':
         for ms in (0, 2, 7):
             jobs.append(gen_job(f'bytes_hist_ms{ms}', 'offsets', 8, simulate=200, simdepth=4, style=style, reads=['bytes'],
